@@ -135,12 +135,13 @@ CHECKS = {
         technique='full product of stream kinds x attacher answers x delivery modes, all PriorityAttacher configurations, and '
                   'all interleavings of two concurrent via-circuit connection chains with an unrelated stream, on the real '
                   'TorState / TorCircuitEndpoint / SOCKS client with SimTor acknowledging promptly',
-        text='Part A: 7 stream kinds (1 and 2 streams) x 10 attacher answers (BUILT circuit, circuit in LAUNCHED/EXTENDED/FAILED/'
-             'CLOSED, unknown circuit, non-circuit, None, DO_NOT_ATTACH, raising) x {immediate, Deferred fired later, coroutine}; '
+        text='Part A: 7 stream kinds (1 and 2 streams) x 14 attacher answers (BUILT circuit, circuit in LAUNCHED/EXTENDED/FAILED/'
+             'CLOSED, unknown circuit, non-circuit, falsy non-circuits 0/False/""/[], None, DO_NOT_ATTACH, raising) x {immediate, Deferred fired later, coroutine}; '
              'set_attacher bookkeeping; every PriorityAttacher configuration of <= 3 sub-attachers x 3 priorities x 4 answers '
              'with every single removal (~5k). Part B: every merge of the causal chains of two concurrent '
              'Circuit.stream_via().connect() calls (TCP established, method reply, STREAM NEW with that source port, SOCKS '
-             'success) and an unrelated STREAM NEW - 630 orders - in 4 variants (plain, same target host, second circuit still '
+             'success) and an unrelated STREAM NEW - 630 orders - in 6 variants (plain, same target host, unrelated client with the same '
+             'source port on another address, attacher-install acknowledged only after both connects started, second circuit still '
              'building, first circuit closing). Oracle on the ATTACHSTREAM/SETCONF lines and the connect() outcomes.',
         note='Trusted: mc/simtor.py, refs/socks5.py, the lazy SOCKS endpoint double. Tor reports addresses in lower case.'),
     'C10': dict(
